@@ -137,6 +137,11 @@ fn thue(n: usize, a: u8, b: u8) -> Vec<u8> {
     (0..n).map(|i| if (i as u64).count_ones() % 2 == 0 { a } else { b }).collect()
 }
 
+/// every sampling rate 1..=n+1 (the MC domain) with a rotating small Occ rate
+fn full_rates(n: usize, rot: u64) -> Vec<(usize, u32, u8)> {
+    (1..=n + 1).map(|s| (s, [1u32, 2, 3][((rot as usize) + s) % 3], ((s as u64 + rot) % 2) as u8)).collect()
+}
+
 /// sample-rate grid of DESIGN.md: s in {1,2,3,5,n,n+1} x k
 fn grid(n: usize, ks: &[u32], rot: u64, take: usize) -> Vec<(usize, u32, u8)> {
     let mut ss = vec![1usize, 2, 3, 5, n, n + 1];
@@ -171,7 +176,8 @@ pub fn drive(log: &mut Log) {
             let mut text = body;
             text.push(b'$');
             let n = text.len();
-            let plan = Plan { lcp: true, sus: true, samples: grid(n, &[1, 3], case, if th { 12 } else { 3 }) };
+            let samples = if n <= 6 { full_rates(n, case) } else { grid(n, &[1, 3], case, if th { 12 } else { 3 }) };
+            let plan = Plan { lcp: true, sus: true, samples };
             if text == b"CACACAC$" {
                 // LMS positions 1,3,5,7 with LMS substrings ACA, ACA, AC$: two equal names => recursion
                 log.oblige("recursion_smallest_witness");
@@ -197,7 +203,8 @@ pub fn drive(log: &mut Log) {
             let mut text = body;
             text.push(b'$');
             let n = text.len();
-            let plan = Plan { lcp: false, sus: false, samples: grid(n, &[1, 3], case, if th { 12 } else { 3 }) };
+            let samples = if n <= 6 { full_rates(n, case) } else { grid(n, &[1, 3], case, if th { 12 } else { 3 }) };
+            let plan = Plan { lcp: false, sus: false, samples };
             run_bytes(log, "exm", &text, &plan);
         }
     }
